@@ -62,8 +62,13 @@ def isQuote (b : Byte) : Prop := b = SQ ∨ b = DQ
 
 instance (b : Byte) : Decidable (isQuote b) := by unfold isQuote; infer_instance
 
-/-- a word: non-empty, no NUL, no blanks, no quote characters -/
-def Word (w : List Byte) : Prop := w ≠ [] ∧ ∀ b ∈ w, b ≠ 0 ∧ ¬ blank b ∧ ¬ isQuote b
+/-- the visible characters of the property's alphabet (not NUL, not white space, not a control) -/
+def printable (b : Byte) : Prop := 33 ≤ b ∧ b ≤ 126
+
+instance (b : Byte) : Decidable (printable b) := by unfold printable; infer_instance
+
+/-- a word: non-empty, visible characters only, no quote characters -/
+def Word (w : List Byte) : Prop := w ≠ [] ∧ ∀ b ∈ w, printable b ∧ ¬ isQuote b
 
 /-- a non-empty separator made of blanks -/
 def Blanks (l : List Byte) : Prop := l ≠ [] ∧ ∀ b ∈ l, blank b
